@@ -143,11 +143,13 @@ fn text_with_carats_and_line_count_buffer_and_line_numbers(
                 first_line_with_span = std::cmp::min(first_line_with_span, output_lines.len());
                 last_line_with_span = output_lines.len() + 1;
 
+                // start_of_carats and end_of_carats are byte offsets, but we want one
+                // column per character, so count the characters of each slice.
                 let mut carats = String::new();
-                for _ in 0..start_of_carats {
+                for _ in prefix.chars() {
                     carats.push(' ');
                 }
-                for _ in start_of_carats..end_of_carats {
+                for _ in highlighted.chars() {
                     carats.push_str(&format!(
                         "{}",
                         if colorize_carats {
@@ -157,7 +159,7 @@ fn text_with_carats_and_line_count_buffer_and_line_numbers(
                         }
                     ));
                 }
-                for _ in end_of_carats..line_len {
+                for _ in suffix.chars() {
                     carats.push(' ');
                 }
 
